@@ -312,7 +312,7 @@ fn run(seed: u64, round_trip: bool) -> RunOut {
 	let t1 = rng.below(11);
 	desc.push_str(&format!("|mode{} cut@{} t1={}", mode, x, t1));
 	let mut extra: Vec<(PaymentPreimage, PaymentHash, usize)> = Vec::new();
-	let mut send = |nodes: &Vec<Node>, to: usize, amt: u64, log: &mut Vec<String>| -> Option<(PaymentPreimage, PaymentHash, usize)> {
+	let send = |nodes: &Vec<Node>, to: usize, amt: u64, log: &mut Vec<String>| -> Option<(PaymentPreimage, PaymentHash, usize)> {
 		let (pre, hash, secret) = get_payment_preimage_hash(&nodes[to], Some(amt), None);
 		let onion = RecipientOnionFields::secret_only(secret, amt);
 		let r = nodes[0].node.send_payment(hash, onion, PaymentId(hash.0), route_params(nodes, to, amt), Retry::Attempts(0));
